@@ -1001,6 +1001,22 @@ def run_fixed(ctx, descr, src, vals):
         unload_module(m)
 
 
+def coqchk_part(ctx: vlib.Ctx):
+    """thorough tier: the compiled property files are re-checked by the independent checker coqchk"""
+    import re
+    mods = ["VerifProps.C06_schema", "VerifProps.C06_k6", "VerifProps.C06_alias"]
+    rc, out, secs = vlib.run(["timeout", "1500", "coqchk", "-silent", "-o", "-Q", "theories", "Verif", "-Q", "gen", "VerifGen",
+                              "-Q", "props", "VerifProps"] + mods, cwd=vlib.COQ, timeout=1600)
+    m = re.search(r"\* Axioms:\s*(.*?)\n\s*\n", out, re.S)
+    axioms = " ".join(m.group(1).split()) if m else "?"
+    clean = rc == 0 and axioms == "<none>" and all(f"relying on {x}: <none>" in " ".join(out.split())
+                                                     for x in ("type-in-type", "unsafe (co)fixpoints"))
+    ctx.obligation("coqchk -o " + " ".join(mods), clean, f"exit {rc}, Axioms: {axioms}, {secs:.0f}s")
+    ctx.trusted.append(f"coqchk -o on {', '.join(mods)}: Axioms: {axioms} (exit {rc})")
+    if not clean:
+        ctx.not_shown("coqchk", out[-1500:])
+
+
 def run(ctx: vlib.Ctx):
     ctx.coverage["rule"] = ("random class tables + root types over the supported grammar (scalars, 19 stdlib leaves, 5 enum bases, Literal, "
                             "List/Sequence/Deque/Set/FrozenSet/Tuple var+fixed+Unpack (nested), Dict/Mapping/OrderedDict/DefaultDict/Counter/"
@@ -1019,6 +1035,8 @@ def run(ctx: vlib.Ctx):
     alias_part(ctx)
     model_part(ctx)
     fixed_part(ctx)
+    if not ctx.quick():
+        coqchk_part(ctx)
     n = oracle(ctx, ctx.budget(250, 2000), 4)
     ctx.notes.append(f"oracle validations: {n}")
 
